@@ -799,21 +799,21 @@ package iavl
 // hashing memoises in node.hash and touches nothing else of any node (so every
 // node keeps its abstract view): the working hash can be asked for at any time
 //@ func (*Node).hashWithCount(node, version) (h)
-//@   props C02 C06
+//@   props C02
 //@   nosafety
 //@   ensures [memo] node != nil && old(node.hash) != nil ==> h == old(node.hash) && node.hash == old(node.hash)
 //@   ensures [frame] nframe(old(heap(N)), heap(N), old(na))
 //@   modifies Node.hash[*]
 
 //@ func (*Node).writeHashBytesRecursively(node, w, version) (err)
-//@   props C02 C06
+//@   props C02
 //@   nosafety
 //@   requires node != nil && w != nil
 //@   ensures [frame] nframe(old(heap(N)), heap(N), old(na))
 //@   modifies Node.hash[*], wstream[w]
 
 //@ func (*ImmutableTree).Hash(t) (h)
-//@   props C02 C06
+//@   props C02
 //@   requires t != nil
 //@   ensures [memo] t.root != nil && old(t.root.hash) != nil ==> h == old(t.root.hash)
 //@   ensures [frame] nframe(old(heap(N)), heap(N), old(na))
